@@ -34,6 +34,21 @@ CHECKS.update({
    "Bounded by history length and move alphabets (stated in the evidence rule); the reference game is ~100 lines of linear scans.", "DESIGN.md §5 C05"),
 })
 
+CHECKS.update({
+ "C08": ("seq", "model_checking", "exhaustive enumeration of operation words {push,pop,fork,switch} on real boards vs multi-board model",
+   "Every word of <= 8 (thorough 10) operations over push (root alphabets with castling, e.p., promotions, captures, shuffles), pop (never below a fork point), fork (<= 3 live boards) and switch is replayed on fresh real boards; after the last operation every live board's getters are compared with a reference multi-board model, the hash with the scratch hash, and after a push the C05 draw oracle runs on that board, so repetition against the common past is checked on both sides of a fork.",
+   "Bounded by word length, alphabets and 3 live boards. Taking back below a fork point is excluded as the property says.", "DESIGN.md §5 C08"),
+ "C14": ("seq", "model_checking", "explicit-state BFS x clock grid for the codec; exhaustive Move/TakeBack histories through the engine",
+   "Every BFS node and family position x 7x7 clock values x both sides round-trips through Decode/Encode in both directions (string and value identity), and the FEN the engine reports is compared with the reference game's FEN after every Move and TakeBack of all histories to depth n from roots with castling, e.p., promotions and carried-in clocks.",
+   "Bounded by BFS depth, clock grid and history depth.", "DESIGN.md §5 C14"),
+ "C19": ("seq", "model_checking", "bounded-exhaustive enumeration of input strings (symbol words, token words with run-length macros, all 1-2 edits) and of all move strings per position",
+   "All strings of <= 5 symbols into the move/square parsers, all FEN board fields that are words of <= 5 (6) tokens including run-length macro tokens that overflow a byte-sized square cursor, valid boards crossed with field alphabets, every single (double) edit of 10 valid FENs, and all 28 672 coordinate strings per position through Engine.Move for ~500 positions: no panic, error or well-formed round-tripping value, accepted iff reference-legal, state snapshot unchanged on rejection.",
+   "Bounded alphabets and lengths; arbitrary bytes beyond the alphabets are represented by NUL, a 2-byte and an Arabic-digit rune.", "DESIGN.md §5 C19"),
+ "C20": ("seq", "model_checking", "exhaustive push-sequence walks with history + all K+X v K placements vs mirrored twin game and reference rules",
+   "Every node with its history: evaluations finite, colour-blind evaluations equal on a twin board built by playing the mirrored history from the mirrored start, plausible moves legal/unique/within limit/non-empty, no-under-promotion filter exact, considerable-move predicate equal to its four rules read on the reference model, and every entry of both opening books legal.",
+   "Bounded by walk depth (2-3 plies of history from ~50 seeds, deeper on fortresses).", "DESIGN.md §5 C20"),
+})
+
 NOT_YET = {}
 
 def main():
